@@ -90,6 +90,17 @@ def render_user(user: list[dict], style: str) -> str:
         vals = USER_VALUES[u["name"]]
         if style == "flow":
             out.append(f"{name}: " + json.dumps(vals))
+        elif style == "flowlines":       # a flow mapping written over several lines: its closing brace stands in column 0
+            items = list(vals.items())
+            out.append(f"{name}: {{")
+            out += [f"  {json.dumps(k)}: {json.dumps(v)}" + ("," if n < len(items) - 1 else "") for n, (k, v) in enumerate(items)]
+            out.append("}")
+        elif style == "col0comment":     # a block mapping with comment lines in column 0 inside the section
+            body = ["  " + l for l in yaml.safe_dump(vals, default_flow_style=False).rstrip().split("\n")]
+            out.append(f"{name}:")
+            out += ["# the values below were agreed with the team", body[0]]
+            for b in body[1:]:
+                out += [f"#{b[1:]}-old", b]
         elif style == "commented":
             out.append(f"{name}:   # tuned by hand")
             out += ["  " + l for l in yaml.safe_dump(vals, default_flow_style=False).rstrip().split("\n")]
@@ -157,7 +168,7 @@ def run(chk) -> None:
     chk.rule = ("(a) histories of config set/get/reset over 6 keys (5 of the schema, one of the user's own) x {valid, invalid, type-ambiguous} values, "
                 "simulated by TLC from ConfigTool.tla and replayed through real CLI processes on yaml and json "
                 "files (explicit --config and the default location); (b) init-config on every existing-file case "
-                "(subsets of 6 user sections x hyphen/underscore spelling x block/flow/commented style x 3 "
+                "(subsets of 6 user sections x hyphen/underscore spelling x block / one-line flow / multi-line flow / commented / column-0-comment style x 3 "
                 "presets) and on no file; non-trivial = history contains a set / an existing file; distinct by case")
     chk.assumptions = ["`returned unchanged` is judged on the text printed by `config get` against the text given "
                        "to `config set`", "Effect is judged through the tool's own loader (parse_config_file)"]
@@ -192,7 +203,7 @@ def run(chk) -> None:
         jobs.append({"kind": "hist", "hist": h, "carrier": "yaml" if i % 2 == 0 else "json",
                      "implicit": i % 5 == 4 and i % 2 == 0, "root": str(scratch_root() / f"c20h-{i}")})
     njobs_h = len(jobs)
-    styles = ["block", "flow", "commented"]
+    styles = ["block", "flow", "commented", "flowlines", "col0comment"]
     presets = ["standard", "strict", "lenient"]
     k = 0
     for uc in usercases:
